@@ -123,7 +123,7 @@ def mk(kind, *args):
       for i in range(0, len(base.args), 2):
         if base.args[i] == a[1]:
           return base.args[i + 1]
-    if base is not None and base.kind == "map" and len(base.args) == 3 and isinstance(base.args[0], Poly):
+    if base is not None and base.kind == "map" and len(base.args) == 3 and hasattr(base.args[0], "deep_subst"):
       elt, bv, src = base.args
       return rebuild(elt.deep_subst(bv, a[1]))   # map(elt(bv), bv, src)[i] = elt(i)
     if base is not None and base.kind == "upd" and len(base.args) == 3 and isinstance(a[1], Poly) and base.args[1] == a[1]:
